@@ -1,8 +1,8 @@
 SPECIFICATION Spec
 CONSTANTS
-  Roots <- N_Roots
-  Ops <- Q_Ops
-  Scheds = {"any"}
+  Roots <- F_Roots
+  Ops <- F_Ops
+  Scheds = {"sync"}
   MaxDepth = 1
   MaxRuns = 1
   MaxTasks = 12
